@@ -156,6 +156,9 @@ func c07(tier string) []*explore.Scenario {
 		"unread/m=2/read=1/other=false", "deadline/rounds=1/deaf=false", "predone/Bidi")...)...)
 	// double faults: an operation inside the transport's Write when the context ends / the read side fails, and the fate of that write
 	out = append(out, opInWriteAll("C07", 1)...)
+	for _, kind := range []string{"Bidi", "SStream", "CStream", "Unary"} {
+		out = append(out, foreignContextCancel("C07", kind, 2))
+	}
 	return out
 }
 
